@@ -88,6 +88,20 @@ def native_class(key):
     import importlib
     mod, _, name = key.partition(":")
     m = importlib.import_module(SHORT.get(mod, mod))
+    # the engine models adafruit_bus_device.SPIDevice(spi, ...) as `spi` itself (assumed contract
+    # SPIDEV: one `with` block = one CSN frame on the stub); a constructor that runs natively
+    # (replay / differential) must build the same object graph
+    for drv in ("circuitpython_nrf24l01.rf24", "circuitpython_nrf24l01.rf24_lite"):
+        if not SHORT.get(mod, mod).startswith("circuitpython_nrf24l01"):
+            break
+        try:
+            dm = importlib.import_module(drv)
+        except Exception:
+            continue
+        if hasattr(dm, "SPIDevice") and getattr(dm.SPIDevice, "__name__", "") != "_spidevice_as_modelled":
+            def _spidevice_as_modelled(spi, *a, **k):
+                return spi
+            dm.SPIDevice = _spidevice_as_modelled
     return getattr(m, name)
 
 
